@@ -89,6 +89,7 @@ type Explorer struct {
 	expired  bool
 	sample   string
 	maxExec  int64
+	probed   map[core.H]struct{} // states already probed at a smaller bound
 }
 
 type runResult struct {
@@ -132,6 +133,13 @@ func (e *Explorer) run(choices []int, probeAt int, follow bool) *runResult {
 			}
 			_, seen := e.visited[p.Key]
 			e.visited[p.Key] = rem
+			if !seen && e.probed != nil {
+				if _, done := e.probed[p.Key]; done {
+					seen = true
+				} else {
+					e.probed[p.Key] = struct{}{}
+				}
+			}
 			if !seen {
 				if e.sc.Probe != nil {
 					e.probes++
@@ -366,17 +374,20 @@ func Replay(sc Scenario, schedule []int, probe string) (*core.Failure, []*core.O
 // 0,1,2,… (bound == Unbounded: then without a bound). It stops at the first violation.
 func Explore(sc Scenario, bound int, deadline time.Time) Result {
 	res := Result{Scenario: sc.Name, MaxBound: -1}
+	// iterative bounding: 0,1,2,… so that the first counterexample has the fewest preemptions and a
+	// run stopped by its deadline still reports the largest bound it completed
 	var bounds []int
-	for b := 0; b <= 2 && b <= bound; b++ {
+	for b := 0; b <= 8 && b <= bound; b++ {
 		bounds = append(bounds, b)
 	}
-	if bound > 2 {
+	if bound > 8 {
 		bounds = append(bounds, bound)
 	}
+	probed := map[core.H]struct{}{}
 	hist := map[string]struct{}{}
 	outcomes := map[string]struct{}{}
 	for _, b := range bounds {
-		e := &Explorer{sc: sc, bound: b, visited: map[core.H]int32{}, hist: hist, outcomes: outcomes, deadline: deadline}
+		e := &Explorer{sc: sc, bound: b, visited: map[core.H]int32{}, hist: hist, outcomes: outcomes, deadline: deadline, probed: probed}
 		e.stat.Bound = b
 		e.explore(nil)
 		e.stat.States = len(e.visited)
